@@ -264,6 +264,53 @@ def run_case(job, acc: Acc):
         acc.sample({"access": access, "scope": scope, "user_file": files["zquser.f90"]})
 
 
+CHAIN = {
+    "zqc_old.f90": "module zqm_old\n  implicit none\n  type :: zqt_old\n    integer :: zqc_o1\n  contains\n    procedure :: zqb_o => zqs_o\n  end type zqt_old\ncontains\n  subroutine zqs_o(self)\n    class(zqt_old) :: self\n  end subroutine zqs_o\nend module zqm_old\n",
+    "zqc_mid.f90": "module zqm_mid\n  use zqm_old\n  implicit none\n  type, extends(zqt_old) :: zqt_mid\n    integer :: zqc_m1\n  end type zqt_mid\nend module zqm_mid\n",
+    "zqc_young.f90": "module zqm_young\n  use zqm_mid\n  implicit none\n  type, extends(zqt_mid) :: zqt_young\n    integer :: zqc_y1\n  end type zqt_young\nend module zqm_young\n",
+    "zqc_user.f90": "program zqp_chain\n  use zqm_young\n  implicit none\n  type(zqt_young) :: zqy_obj\n  zqy_obj%zq\nend program zqp_chain\n",
+}
+CHAIN_MEMBERS = {"zqc_o1", "zqb_o", "zqc_m1", "zqc_y1"}
+
+
+def chain_case(order, acc: Acc):
+    """A three-level EXTENDS chain over three files, indexed in a scripted file order (the youngest type's file
+    first / last / in the middle): obj% must offer the members of all levels."""
+    sc = worker_scratch("c12")
+    sc.wipe()
+    root = os.path.realpath(os.path.join(sc.path, "w"))
+    os.makedirs(root)
+    for n, t in CHAIN.items():
+        with open(os.path.join(root, n), "w") as f:
+            f.write(t)
+    s = Server([])
+    real = s.srv._get_source_files
+
+    def scripted():
+        lst = sorted(real())
+        rank = {n: i for i, n in enumerate(order)}
+        return sorted(lst, key=lambda p: rank[os.path.basename(p)])
+
+    s.srv._get_source_files = scripted
+    s.initialize(root)
+    path = os.path.join(root, "zqc_user.f90")
+    for typed in ("zq", "zqc", "zqc_", "zqb", "ZQC_O"):
+        lines = CHAIN["zqc_user.f90"].split("\n")
+        lines[4] = "  zqy_obj%" + typed
+        s.open(path)
+        s.change(path, [{"text": "\n".join(lines)}])
+        r = s.result("textDocument/completion", Server.tdpp(path, 4, len(lines[4])))
+        labels = {c["label"].lower() for c in r} if isinstance(r, list) else set()
+        want = {m for m in CHAIN_MEMBERS if m.startswith(typed.lower())}
+        acc.case(nontrivial_key=("chain", tuple(order), typed), outcome=("chain", len(want)))
+        acc.count("completions")
+        if labels != want:
+            acc.violation(Violation("completion", {"family": "completion", "context": "member_chain3", "access": "chain", "scope": "program",
+                                                   "upper": typed != typed.lower(), "obs": "missing" if want - labels else "extra", "class": "member"},
+                                    {"order": list(order), "typed": typed, "context": "member_chain3"}, sorted(want), sorted(labels),
+                                    what=f"3-level chain, file order {order}: typed {typed!r}: expected {sorted(want)}, got {sorted(labels)}"))
+
+
 def main(ctx):
     ctx.rule = ("6 access variants x 3 using scopes; per workspace up to 9 contexts (body, body with text after the cursor, CALL, "
                 "USE, USE ONLY:, TYPE(, CLASS(, obj%, obj%comp%) x every prefix from the stem 'zq' up to the full name of every "
@@ -275,11 +322,18 @@ def main(ctx):
                        "labels are compared case-insensitively"]
     jobs = [(a, sc) for a in ACCESS for sc in SCOPES]
     acc = core.pmap(run_case, jobs, chunk=1, budget_s=300, label="C12")
+    import itertools
+
+    cacc = core.pmap(chain_case, list(itertools.permutations(sorted(CHAIN))), chunk=1, budget_s=120, label="C12/chain")
+    acc.merge(cacc)
     ctx.add_family("completion", acc)
 
 
 def replay(rec):
     c = rec["case"]
     acc = Acc()
+    if c.get("context") == "member_chain3":
+        chain_case(tuple(c["order"]), acc)
+        return [v.to_json("C12") for v in acc.violations if v.case["typed"] == c["typed"]] or None
     run_case((c["access"], c["scope"]), acc)
     return [v.to_json("C12") for v in acc.violations if v.case["context"] == c["context"] and v.case["typed"] == c["typed"]] or None
